@@ -12,6 +12,10 @@ def run(prop, tier, seed, replay=None):
                      "message size, plus 16 MiB before the metadata is known (index-sized tables, capped) and the sanctioned metadata buffer (<= 128 MiB) "
                      "for messages that announce a metadata size",
                      "torrent of 4 pieces; a second well-behaved peer receives broadcasts"]
+    if replay and json.load(open(replay))["scenario"].get("binding") == "metadata":
+        import p_metadata
+        p_metadata.crash_probe(v, prop, tier, seed, [json.load(open(replay))["scenario"]])
+        return v.finish()
     if replay:
         scen = [json.load(open(replay))["scenario"]]
     else:
@@ -81,4 +85,8 @@ def run(prop, tier, seed, replay=None):
             sc["geom"] = i % 2
         p_sched.run_replays(v, prop, sims)
         v.cov["traces_validated_against_impl"] += len(sims)
+    if not replay:
+        # "... or in the torrent's processing of what the peer sent": the metadata assembly
+        import p_metadata
+        p_metadata.crash_probe(v, prop, tier, seed)
     return v.finish()
